@@ -72,6 +72,9 @@ def run(ctx):
     r3.floor("propagation-sites", n)
 
     sibling(ctx, lexpr)
+    if ctx.tier == "thorough":
+        from .. import selftest
+        selftest.check_errdrop(ctx, ctx.rule("CONTROLS", "positive controls: the detectors fire on the seeded fixtures crate"))
 
 
 def ioread_map(ctx, lexpr):
